@@ -241,7 +241,11 @@ fn errset_line(line: &str) -> String {
   let mut mods: HashMap<usize, ModuleReference> = HashMap::new();
   let mut mod_back: HashMap<ModuleReference, usize> = HashMap::new();
   for m in nats(t[1]) {
-    let r = heap.alloc_module_reference_from_string_vec(vec![format!("M{m}")]);
+    // modules 0 and 1 are called `M0-x` and `M0_x`: distinct printed names (and still in index order
+    // among `M2`, `M3`, …) whose *encoded* forms coincide — a by-name report keyed on anything but the
+    // printed name ties on them and falls back to allocation order (seeded C12h)
+    let name = match m { 0 => "M0-x".to_string(), 1 => "M0_x".to_string(), _ => format!("M{m}") };
+    let r = heap.alloc_module_reference_from_string_vec(vec![name]);
     mods.insert(m, r);
     mod_back.insert(r, m);
   }
@@ -334,6 +338,8 @@ fn errset_line(line: &str) -> String {
         continue;
       }
       let loc = l.rsplit(' ').next().unwrap_or("").to_string();
+      let loc = if let Some(r) = loc.strip_prefix("M0-x.sam") { format!("M0.sam{r}") }
+        else if let Some(r) = loc.strip_prefix("M0_x.sam") { format!("M1.sam{r}") } else { loc };
       let msg = lines[i + 1..].iter().find(|x| !x.trim().is_empty()).copied().unwrap_or("");
       let tag = if let Some(rest) = msg.strip_prefix("Cannot resolve name `") {
         let name = rest.trim_end_matches("`.");
